@@ -382,7 +382,8 @@ class SchemaBuilder(
                 else res["type"]
                 for res in results
             )
-            return json_schema(type=list(types))
+            # remove duplicates, e.g. for Union[int, NewType("Id", int)]
+            return json_schema(type=list(dict.fromkeys(types)))
         elif (
             len(results) == 2
             and all("type" in res for res in results)
